@@ -364,6 +364,24 @@ def _split_args(key: str):
     return out
 
 
+def term_args(repo, key: str) -> dict:
+    """parameter name -> argument text of a constructor term 'Name(a, b, kw=c)' of the builder model, whether the source
+    wrote the argument positionally or by keyword (resolved through the package's signature table)"""
+    i = key.find("(")
+    name = key[:i] if i > 0 else ""
+    ps = repo.signatures.get(name, ())
+    out = {}
+    pos = 0
+    for a in _split_args(key):
+        m_ = re.match(r"^([A-Za-z_][A-Za-z_0-9]*)=(?!=)(.*)$", a, re.S)
+        if m_:
+            out[m_.group(1)] = m_.group(2).strip()
+        else:
+            out[ps[pos] if pos < len(ps) else pos] = a
+            pos += 1
+    return out
+
+
 def _c10_numeric_presence(repo, report, m, dests):
     """An option whose value 0 is legal (type int/float, default None) must be tested with 'is None', never by truthiness."""
     mode = "paired" if m.paired else "single"
@@ -660,23 +678,24 @@ def c15_r5(repo, report, tier):
         for e in demux:
             k = e["slot"].key
             probs = []
+            ta = term_args(repo, k)
             if e["inner"] == "CombinatorialDemultiplexer":
                 a = _split_args(k)
                 if len(a) < 2 or "adapters2" in a[0] or "adapters2" not in a[1]:
                     probs.append("adapter name lists of R1 and R2 in the wrong positions")
-                if "template1=args.output" not in k or "template2=args.paired_output" not in k:
+                if ta.get("template1") != "args.output" or ta.get("template2") != "args.paired_output":
                     probs.append("templates swapped")
             elif e["inner"] == "PairedDemultiplexer":
-                if "template1=args.output" not in k or "template2=args.paired_output" not in k:
+                if ta.get("template1") != "args.output" or ta.get("template2") != "args.paired_output":
                     probs.append("templates swapped")
-                if "untrimmed_output=args.untrimmed_output" not in k or "untrimmed_paired_output=args.untrimmed_paired_output" not in k:
+                if ta.get("untrimmed_output") != "args.untrimmed_output" or ta.get("untrimmed_paired_output") != "args.untrimmed_paired_output":
                     probs.append("untrimmed paths swapped")
                 if "adapters2" in _split_args(k)[0]:
                     probs.append("routes by R2 adapter names")
             else:
-                if "template=args.output" not in k or "untrimmed_output=args.untrimmed_output" not in k:
+                if ta.get("template") != "args.output" or ta.get("untrimmed_output") != "args.untrimmed_output":
                     probs.append("template/untrimmed path wiring")
-            if "discard_untrimmed=args.discard_untrimmed" not in k:
+            if ta.get("discard_untrimmed") != "args.discard_untrimmed":
                 probs.append("discard_untrimmed not taken from --discard-untrimmed")
             report.ob("C15.R5", f"{mode}:{e['inner']} wiring", not probs, facts={"term": k[:300], "problems": probs}, expected="names of R1 (and R2) adapters, -o/-p templates, untrimmed paths and --discard-untrimmed in their own parameters", loc=f"src/cutadapt/cli.py:{getattr(e['slot'].node, 'lineno', 0)}")
 
@@ -714,8 +733,7 @@ def c05_r4_override(repo, report, tier):
     n_over = n_plain = 0
     for e in filt:
         k = e["slot"].key
-        mm = re.search(r"pair_filter_mode=([^,)]+)", k)
-        mode = mm.group(1) if mm else None
+        mode = term_args(repo, k).get("pair_filter_mode")
         val = e["val"]
         if "IsUntrimmed" in e["preds"]:
             # override condition from the guard
